@@ -281,3 +281,28 @@ Fixpoint ok_rounds (c : cfg) (ss : list script) (os : list robs) : bool :=
   | s :: ss', o :: os' => ok_round c w0 s o && ok_rounds c ss' os'
   | _, _ => false
   end.
+
+(* ---------- n simultaneous first requests (all find nothing registered, all pull) ---------- *)
+(* observed once every replaced pull client has noticed (its stream refuses the next packet), and
+   after the cameras have closed *)
+Record cobs := {
+  co_answers : bool;    (* every requester got a stream with the requested path *)
+  co_live : Z;          (* 0 / 1 / 2 = none, exactly one, several of the returned streams are live *)
+  co_registered : Z;    (* media.Count streams *)
+  co_member : bool;     (* the registered stream is one of the returned ones *)
+  co_world : world;     (* connections, counter, goroutines while the winner plays *)
+  co_final : world
+}.
+(* a pull client whose stream was replaced ends: its Unregist leaves the successor registered *)
+Definition ended_replaced (w : world) : world :=
+  {| w_reg := w_reg w; w_cnt := w_cnt w - 1; w_conns := w_conns w - 1; w_readers := w_readers w - 1 |}.
+(* what the property demands: one registered live stream, one pull client, nothing left at the end *)
+Definition ok_conc (o : cobs) : bool :=
+  co_answers o && (co_live o =? 1) && (co_registered o =? 1) && co_member o &&
+  world_eqb (co_world o) (started w0) && world_eqb (co_final o) w0.
+(* the model: the race leaves one winner (Properties/C20 pull_concurrent_one_registered); the
+   losers end as in [ended]; the winner plays on *)
+Definition conc_model (n : nat) : cobs :=
+  {| co_answers := true; co_live := 1; co_registered := 1; co_member := true;
+     co_world := Nat.iter (n - 1) ended_replaced (Nat.iter n started w0);
+     co_final := w0 |}.
